@@ -288,3 +288,69 @@ def relabel(net: Net, mapping) -> Net:
     for l, (t, ops) in net.gates.items():
         g[mapping.get(l, l)] = (t, tuple(mapping.get(o, o) for o in ops))
     return Net([mapping.get(i, i) for i in net.inputs], [mapping.get(o, o) for o in net.outputs], g)
+
+
+# ---------------------------------------------------------------- public-API edits (well-formedness preserving)
+
+def random_edits(c, rng: random.Random, k=None, allow_into_bench=True, allow_interface=True):
+    """Apply k random *valid* public mutations to circuit `c` in place, so that the
+    circuit is one that was reached through a mutation history (empty users lists,
+    moved storage order, converted gates, retyped inputs...).  Returns the list of
+    edit descriptions.  Deterministic for a given (c, rng state)."""
+    from cirbo.core.circuit import gate as G
+    gt = gate_type_by_name()
+    k = rng.randint(1, 5) if k is None else k
+    done = []
+    for step in range(k):
+        labels = list(c.gates)
+        if not labels:
+            break
+        kind = rng.choice(['add_remove', 'add_remove', 'remove_free', 'rename', 'rename_back', 'into_bench', 'outputs',
+                           'add_keep', 'replace_input'])
+        try:
+            if kind in ('add_remove', 'add_keep'):
+                t = rng.choice(['AND', 'OR', 'XOR', 'GT', 'LIFF', 'RNOT', 'NOT', 'NAND'])
+                ops = (rng.choice(labels),) if t == 'NOT' else (rng.choice(labels), rng.choice(labels))
+                lbl = 'ed%d_%d' % (step, rng.randrange(10 ** 6))
+                if c.has_gate(lbl):
+                    continue
+                c.emplace_gate(lbl, gt[t], ops)
+                if kind == 'add_remove':
+                    c.remove_gate(lbl)
+                done.append([kind, lbl, t, list(ops)])
+            elif kind == 'remove_free':
+                free = [l for l in labels if not c.get_gate_users(l) and l not in c.outputs
+                        and c.get_gate(l).gate_type != G.INPUT]
+                if free:
+                    l = rng.choice(free)
+                    c.remove_gate(l)
+                    done.append([kind, l])
+            elif kind in ('rename', 'rename_back'):
+                l = rng.choice(labels)
+                new = 'rn%d_%s' % (step, l)
+                if c.has_gate(new):
+                    continue
+                c.rename_gate(l, new)
+                if kind == 'rename_back':
+                    c.rename_gate(new, l)
+                done.append([kind, l, new])
+            elif kind == 'into_bench' and allow_into_bench and c.inputs:
+                c.into_bench()
+                done.append([kind])
+            elif kind == 'outputs' and allow_interface:
+                outs = list(c.outputs)
+                if rng.random() < 0.5:
+                    outs.append(rng.choice(labels))
+                rng.shuffle(outs)
+                c.set_outputs(outs)
+                done.append([kind, outs])
+            elif kind == 'replace_input' and allow_interface and len(c.inputs) > 1:
+                i = rng.choice(list(c.inputs))
+                if rng.random() < 0.5:
+                    c.replace_inputs([i], [])
+                else:
+                    c.replace_inputs([], [i])
+                done.append([kind, i])
+        except Exception as e:  # an edit that the library refuses is simply not part of the history
+            done.append([kind, 'refused:' + type(e).__name__])
+    return done
